@@ -240,6 +240,7 @@ type Case struct {
 	stepViols    []violation
 	sentProps    map[propKey]bool
 	refused      []refusedProp
+	firedUnarmed bool            // a ctimeout op named a timer that was not the live one
 	sentAll      map[msgKey]bool // single-signer messages this operator broadcast
 	gotSigned    []msgKey        // validly signed single-signer messages of OTHER operators it was fed (replay consistency)
 	nf           string          // network fault ("a" | "b") to inject into the next op's broadcast
